@@ -16,13 +16,16 @@ import (
 	"context"
 	"encoding/json"
 	"errors"
+	"flag"
 	"fmt"
 	"io"
 	"log/slog"
 	"os"
 	"reflect"
+	"os/exec"
 	"sort"
 	"strings"
+	"sync"
 	"time"
 
 	cmapi "github.com/cert-manager/cert-manager/pkg/apis/certmanager/v1"
@@ -1085,6 +1088,92 @@ func firstTime(v VSIn) (c *CertObj, cerr string, d *DNSObj, derr string) {
 	return
 }
 
+// ---------- the first-time reference, from a pristine process ----------
+//
+// "What a first-time synchronization of this VirtualServer creates" must not depend on anything this
+// process has synchronized before (package-level state of the code under test survives between
+// histories, and on purpose: the histories share one process the way VirtualServers share one
+// controller).  The reference is therefore computed by a child process that does nothing else: this
+// binary with -fresh-one, the VirtualServer on stdin, one VirtualServer per process.
+
+type FreshRes struct {
+	Cert    *CertObj `json:"cert"`
+	CertErr string   `json:"cert_err"`
+	DNS     *DNSObj  `json:"dns"`
+	DNSErr  string   `json:"dns_err"`
+}
+
+var (
+	freshMu    sync.Mutex
+	freshCache = map[string]FreshRes{}
+)
+
+func freshKey(v VSIn) string {
+	b, _ := json.Marshal(v)
+	return string(b)
+}
+
+func freshChild(v VSIn) FreshRes {
+	self, err := os.Executable()
+	if err != nil {
+		return FreshRes{CertErr: "harness", DNSErr: "harness"}
+	}
+	in, _ := json.Marshal(v)
+	cmd := exec.Command(self, "-fresh-one")
+	cmd.Stdin = strings.NewReader(string(in))
+	out, err := cmd.Output()
+	var r FreshRes
+	if err != nil || json.Unmarshal(out, &r) != nil {
+		return FreshRes{CertErr: "harness", DNSErr: "harness"}
+	}
+	return r
+}
+
+// precomputeFresh fills the reference cache for every VirtualServer of the cases, 16 children at a time.
+func precomputeFresh(cases []*Case) {
+	var todo []VSIn
+	seen := map[string]bool{}
+	for _, c := range cases {
+		for i := range c.Steps {
+			fillOracles(&c.Steps[i].VS)
+			k := freshKey(c.Steps[i].VS)
+			if _, ok := freshCache[k]; !ok && !seen[k] {
+				seen[k] = true
+				todo = append(todo, c.Steps[i].VS)
+			}
+		}
+	}
+	sem := make(chan struct{}, 16)
+	var wg sync.WaitGroup
+	for _, v := range todo {
+		wg.Add(1)
+		sem <- struct{}{}
+		go func(v VSIn) {
+			defer wg.Done()
+			defer func() { <-sem }()
+			r := freshChild(v)
+			freshMu.Lock()
+			freshCache[freshKey(v)] = r
+			freshMu.Unlock()
+		}(v)
+	}
+	wg.Wait()
+}
+
+func pristineFirstTime(v VSIn) (*CertObj, string, *DNSObj, string) {
+	k := freshKey(v)
+	freshMu.Lock()
+	r, ok := freshCache[k]
+	freshMu.Unlock()
+	if !ok {
+		r = freshChild(v)
+		freshMu.Lock()
+		freshCache[k] = r
+		freshMu.Unlock()
+	}
+	return r.Cert, r.CertErr, r.DNS, r.DNSErr
+}
+
 func runCase(c *Case) {
 	defer func() {
 		if r := recover(); r != nil {
@@ -1128,7 +1217,7 @@ func runCase(c *Case) {
 		} else {
 			so = w.step(st)
 		}
-		so.FreshCert, so.FreshCertErr, so.FreshDNS, so.FreshDNSErr = firstTime(st.VS)
+		so.FreshCert, so.FreshCertErr, so.FreshDNS, so.FreshDNSErr = pristineFirstTime(st.VS)
 		if c.Delivery && so.Delivery != nil {
 			// no fault is injected in this family, so an error of a synchronization is a property of the
 			// VirtualServer alone.  When a controller did not synchronize at all in this step (event
@@ -1763,7 +1852,39 @@ func witnesses() []*Case {
 			func(v *VSIn) { v.Labels = []KV{{"app", "y"}} }),
 		mk("vs-labels-all-removed", func(v *VSIn) { v.XDNS.Enable = true; v.Labels = []KV{{"app", "y"}, {"tier", "z"}} },
 			func(v *VSIn) { v.Labels = nil }),
+		mk("usages-removed", func(v *VSIn) { v.TLS.CM.Usages = "server auth,client auth" }, func(v *VSIn) { v.TLS.CM.Usages = "" }),
+		mk("usages-single-removed", func(v *VSIn) { v.TLS.CM.Usages = "server auth" }, func(v *VSIn) { v.TLS.CM.Usages = "" }),
+		mk("duration-removed", func(v *VSIn) { v.TLS.CM.Duration = "2160h"; v.TLS.CM.RenewBefore = "360h" }, func(v *VSIn) { v.TLS.CM.Duration = ""; v.TLS.CM.RenewBefore = "" }),
 		mk("common-name-removed", func(v *VSIn) { v.TLS.CM.CommonName = "cn.example.com" }, func(v *VSIn) { v.TLS.CM.CommonName = "" }))
+	// several VirtualServers handled by the same process: one sets tls.cert-manager.usages / ExternalDNS
+	// details, the other does not; each derived object must be a function of its own VirtualServer
+	other := func(c *Case, f func(v *VSIn)) *Case {
+		v := base()
+		v.Name, v.UID, v.Host = "vs-b", "uid-b", "b.example.com"
+		v.TLS.Secret = "s2"
+		f(&v)
+		c.Steps = append(c.Steps, Step{VS: cloneVS(v), Kind: "identity"}, Step{VS: cloneVS(v), Kind: "resync"}, Step{VS: cloneVS(c.Steps[0].VS), Kind: "identity"})
+		return c
+	}
+	ws = append(ws,
+		other(mk("two-virtualservers-usages", func(v *VSIn) { v.TLS.CM.Usages = "server auth,client auth"; v.TLS.CM.Duration = "2160h" }, nop), nop),
+		other(mk("two-virtualservers-externaldns", func(v *VSIn) {
+			v.XDNS.Enable, v.XDNS.TTL, v.XDNS.ProviderNil = true, 300, false
+			v.XDNS.Provider = []KV{{"aws/weight", "10"}}
+			v.XDNS.Labels = &[]KV{{"a", "1"}}
+		}, nop), func(v *VSIn) { v.XDNS.Enable = true }))
+	// histories that set something and then take it away again, or that run two VirtualServers, come
+	// first: they are self-contained witnesses of state that leaks from one synchronization into the
+	// next (all histories share one process), so a replay of the first failing cases reproduces alone
+	sort.SliceStable(ws, func(i, j int) bool {
+		pri := func(c *Case) int {
+			if strings.Contains(c.Class, "two-virtualservers") || strings.Contains(c.Class, "-removed") {
+				return 0
+			}
+			return 1
+		}
+		return pri(ws[i]) < pri(ws[j])
+	})
 	for i, c := range ws {
 		c.ID = i
 	}
@@ -1771,7 +1892,20 @@ func witnesses() []*Case {
 }
 
 func main() {
+	freshOne := flag.Bool("fresh-one", false, "child mode: read one VirtualServer (JSON) from stdin, print what a first-time synchronization creates")
 	a := vh.ParseArgs()
+	if *freshOne {
+		var v VSIn
+		if err := json.NewDecoder(os.Stdin).Decode(&v); err != nil {
+			os.Exit(2)
+		}
+		fillOracles(&v)
+		var r FreshRes
+		r.Cert, r.CertErr, r.DNS, r.DNSErr = firstTime(v)
+		b, _ := json.Marshal(r)
+		os.Stdout.Write(b)
+		return
+	}
 	w, err := vh.NewWriter(a.Out)
 	if err != nil {
 		fmt.Fprintln(os.Stderr, err)
@@ -1785,6 +1919,7 @@ func main() {
 			fmt.Fprintln(os.Stderr, "replay:", err)
 			os.Exit(2)
 		}
+		precomputeFresh(cases)
 		for _, c := range cases {
 			c.Obs = Obs{}
 			runCase(c)
@@ -1792,14 +1927,16 @@ func main() {
 		}
 		return
 	}
-	ws := witnesses()
-	for _, c := range ws {
-		runCase(c)
-		w.Emit(c)
-	}
+	// all histories run in this one process, one after the other (shared package-level state of the
+	// code under test, as VirtualServers share one controller process)
+	all := witnesses()
+	nw := len(all)
 	root := vh.NewRng(a.Seed)
 	for i := 0; i < a.N; i++ {
-		c := genCase(root.Fork(uint64(i)), len(ws)+i)
+		all = append(all, genCase(root.Fork(uint64(i)), nw+i))
+	}
+	precomputeFresh(all)
+	for _, c := range all {
 		runCase(c)
 		w.Emit(c)
 	}
